@@ -75,6 +75,8 @@ def dec(j):
         return E.from_message(j['v'])
     if t == 'xlerr':
         return E.XLError(j['v'])
+    if t == 'xlerrv':
+        return E.XLError(*[dec(x) for x in j['v']])
     if t == 'list':
         return [dec(x) for x in j['v']]
     if t == 'tuple':
@@ -136,6 +138,8 @@ POOL_HOSTILE = [
     {'t': 'fraction', 'v': ['0x1', '0x3']}, {'t': 'bytes', 'v': b'bytes'.hex()},
     {'t': 'dict', 'v': [[S('k'), I(1)]]}, {'t': 'object'}, {'t': 'xlerr', 'v': '#FOO!'},
     {'t': 'xlerr', 'v': ''}, L(ERR('#N/A'), I(1)), L(L(L(I(1)))),
+    {'t': 'xlerrv', 'v': [L(S('#N/A'))]}, {'t': 'xlerrv', 'v': [{'t': 'dict', 'v': [[S('k'), I(1)]]}]},
+    {'t': 'xlerrv', 'v': []}, {'t': 'xlerrv', 'v': [S('#N/A'), S('detail')]}, {'t': 'xlerrv', 'v': [NONE]},
 ]
 
 POOL = POOL_SCALARS + POOL_CONTAINERS + POOL_HOSTILE
